@@ -634,8 +634,8 @@ Definition pt_sparse_index (dims : list nat) (mask : list bool) (m n : nat) : na
      data.reshape(flatten(dims)).transpose(pt_idx).reshape(shape) *)
 Definition pt_idx (mask : list bool) : list nat :=
   let n := length mask in
-  map (fun p : nat * bool => if snd p then n + fst p else fst p) (combine (seq 0 n) mask) ++
-  map (fun p : nat * bool => if snd p then fst p else n + fst p) (combine (seq 0 n) mask).
+  map (fun k => if nth k mask false then n + k else k) (seq 0 n) ++
+  map (fun k => if nth k mask false then k else n + k) (seq 0 n).
 Definition pt_dense_index (dims : list nat) (mask : list bool) (f : nat) : nat :=
   let sh := dims ++ dims in
   undigits (gather (pt_idx mask) sh) (gather (pt_idx mask) (digits sh f)).
